@@ -69,6 +69,9 @@ def run_property(mod, ctx, only=None, do_hunt=True):
             if k is not None:
                 known_hits.append((r, k))
                 continue
+            if r.detail.startswith("skipped:"):
+                inconclusive.append((r, r.detail))
+                continue
             if r.status == "error" and not r.failed and "smt" not in r.detail:
                 inconclusive.append((r, r.detail))
                 continue
